@@ -1207,3 +1207,81 @@ package gedcom
 //@   only C04
 //@   trusted
 //@   pure
+
+// ---------------------------------------------------------------------------
+// C10: merging documents accounts for every individual. Merge produces exactly
+// one output individual per comparison, in order: the merge of both for a
+// matched pair (what MergeNodes holds is C09), the individual itself for a
+// one-sided comparison; nothing is skipped (no early exit except an error).
+// That every input individual is in exactly one comparison is Compare's
+// clause (C11/C12 matching step).
+//@ func IndividualNodes.Compare
+//@   only C10
+//@   trusted
+//@   assigns H.*, M.*, G.*, alloc
+//@ func MergeNodes
+//@   only C10
+//@   trusted
+//@   assigns H.*, M.*, G.*, E.gedcom.Node, alloc
+//@ func DeepCopy
+//@   only C10
+//@   trusted
+//@   assigns H.*, M.*, G.*, E.gedcom.Node, alloc
+//@ func Document.buildPointerCache
+//@   only C10
+//@   trusted
+//@   assigns H.gedcom.Document.pointerCache, H.gedcom.Document.families
+//@ func MergeNodeSlices
+//@   only C10
+//@   trusted
+//@   assigns H.*, M.*, G.*, E.gedcom.Node, alloc
+//@ func NewDocumentWithNodes
+//@   only C10
+//@   trusted
+//@   assigns H.*, M.*, G.*, alloc
+//@ func IndividualNodes.Nodes
+//@   props C10
+//@   loop 1 invariant same-length: len(ns) == rangeindex + 1 && rangeindex < len(nodes)
+//@   loop 1 invariant same-order: forall(i, 0, len(ns), data(ns[i]) == nodes[i])
+//@   ensures same-length: len(result) == len(nodes)
+//@   ensures same-order: forall(i, 0, len(nodes), data(result[i]) == nodes[i])
+//@   assigns E.gedcom.Node, alloc
+//@ func IndividualNodes.Merge
+//@   props C10
+//@   assigns H.*, M.*, G.*, E.*, alloc
+//@   ghost nMerged int = 0
+//@   oncall MergeNodes do nMerged = nMerged + 1
+//@   oncall MergeNodes check both: arg0 != nil && arg1 != nil && data(arg0) == left && data(arg1) == right && arg2 == document
+//@   loop 1 iter one-each: len(merged) - old(len(merged)) == ite(left != nil || right != nil, 1, 0)
+//@   loop 1 iter pair-merged: implies(left != nil && right != nil, nMerged - old(nMerged) == 1)
+//@   ghost nCopied int = 0
+//@   ghost lastCopy int = 0
+//@   oncall DeepCopy do nCopied = nCopied + 1; lastCopy = data(result)
+//@   oncall DeepCopy check copy-of: data(arg0) == ite(left != nil, left, right) && arg1 == document && (left != nil) != (right != nil)
+//@   loop 1 iter one-sided: implies((left != nil) != (right != nil), nMerged == old(nMerged) && nCopied - old(nCopied) == 1 && merged[len(merged)-1] == lastCopy)
+//@   loop 1 iter kept: forall(i, 0, old(len(merged)), merged[i] == old(merged[i]))
+
+// The merged document is the merged individuals followed by the merged other
+// records, all attached to the one new document; errors propagate.
+//@ func MergeDocumentsAndIndividuals
+//@   props C10
+//@   ghost doc int = 0
+//@   ghost nInd int = 0
+//@   ghost nOther int = 0
+//@   oncall NewDocument do doc = result
+//@   oncall individuals#1 check left-individuals: arg0 == left
+//@   oncall individuals#2 check right-individuals: arg0 == right
+//@   oncall nonIndividuals#1 check left-other: arg0 == left
+//@   oncall nonIndividuals#2 check right-other: arg0 == right
+//@   oncall IndividualNodes.Merge check into-new: arg2 == doc && arg0 == leftIndividuals && arg1 == rightIndividuals && arg3 == options
+//@   oncall IndividualNodes.Merge do nInd = len(result0)
+//@   oncall MergeNodeSlices check others: arg0 == leftOther && arg1 == rightOther && arg2 == doc
+//@   oncall MergeNodeSlices do nOther = len(result)
+//@   ensures into-result: implies(isnil(result1), result0 == doc && len(result0.nodes) == nInd + nOther)
+
+// C10: the merged individuals share no node with the inputs (every output
+// individual is created by the call: a merge or a deep copy).
+//@ frame IndividualNodes.Merge
+//@   props C10
+//@   allows *
+//@   result-fresh @tree
